@@ -327,6 +327,7 @@ var c18r = newChk("C18", "read-sequence",
 			ba.IP = net.IP(bound[:])
 		}
 		conn := nclient4.NewBroadcastUDPConn(raw, ba)
+		var kept []*net.UDPAddr
 		for i := 0; ; i++ {
 			buf := make([]byte, 2048)
 			n, addr, err := conn.ReadFrom(buf)
@@ -349,6 +350,13 @@ var c18r = newChk("C18", "read-sequence",
 			ua, ok := addr.(*net.UDPAddr)
 			if !ok || !bytes.Equal(ua.IP.To4(), w.src[:]) || ua.Port != w.sport {
 				return obs.Failf("C18/read/source", fmt.Sprintf("%v:%d", w.src, w.sport), "%v", addr)
+			}
+			kept = append(kept, ua)
+		}
+		// the source addresses handed out earlier are still those of their datagrams after all later reads
+		for i, ua := range kept {
+			if w := want[i]; !bytes.Equal(ua.IP.To4(), w.src[:]) || ua.Port != w.sport {
+				return obs.Failf("C18/read/source-after-later-reads", fmt.Sprintf("datagram %d from %v:%d", i, w.src, w.sport), "%v after %d more reads", ua, len(kept)-1-i)
 			}
 		}
 		if skipThenDeliver {
